@@ -370,12 +370,13 @@ Proof.
   intros fs g t Hfs (E1 & E2 & E3).
   unfold glide_set_time. destruct (is_almost t (g_cached_t g) GL_EPS).
   - exists g. split; [reflexivity | repeat split; assumption].
-  - cbv zeta. unfold glide_f0. rewrite E1, E2, E3.
+  - cbv zeta. unfold glide_f0. cbv zeta. rewrite E1, E2, E3.
+    set (x := fdiv f_1 (if feq t f_0 then f_0 else t)).
     destruct (max_fc_val fs Hfs) as [Fm Vm]. pose proof Hfs as [F B].
     pose proof GL_MIN_FC_bounds as Hmin.
-    pose proof (clamp_maxmin (fdiv f_1 t) GL_MIN_FC (fdiv fs GL_DIV) fin_GL_MIN_FC Fm) as Hc.
+    pose proof (clamp_maxmin x GL_MIN_FC (fdiv fs GL_DIV) fin_GL_MIN_FC Fm) as Hc.
     cbv zeta in Hc. destruct Hc as (Fr & Br & _); [rewrite Vm; lra|].
-    set (f0 := fmin (fmax (fdiv f_1 t) GL_MIN_FC) (fdiv fs GL_DIV)) in *.
+    set (f0 := fmin (fmax x GL_MIN_FC) (fdiv fs GL_DIV)) in *.
     assert (H1 : hz_ok f0 = true).
     { unfold hz_ok. apply (proj2 (flt_true f_0 f0 fin_f0 Fr)). rewrite R32_f0. lra. }
     rewrite H1.
